@@ -389,6 +389,24 @@ impl<'p> Interp<'p> {
                     None => self.eval(d, env, st, sty)?,
                 }
             }
+            E::ArrLit(es) => {
+                let mut vs = vec![];
+                for e in es {
+                    vs.push(V::Num(self.num(e, env, st, sty)?));
+                }
+                V::Tup(vs)
+            }
+            E::Index(a, i) => {
+                let av = self.eval(a, env, st, sty)?;
+                let x = self.num(i, env, st, sty)?;
+                let V::Tup(items) = av else { return Err(Unsupported("index of a non-array".into())) };
+                if items.is_empty() {
+                    return Err(Unsupported("empty array".into()));
+                }
+                // index: non-finite -> 0, truncation towards zero, clamped to the array
+                let k = if !x.is_finite() { 0 } else { (x as i64).clamp(0, items.len() as i64 - 1) as usize };
+                items[k].clone()
+            }
             E::Now => V::Num(self.now),
             E::SampleRate => V::Num(48000.0),
             E::Raw(_) => return Err(Unsupported("raw text".into())),
